@@ -16,5 +16,7 @@ for c in $claimed; do
   C=$(echo $c | tr a-z A-Z)
   (cd lean && lake build VibeProof.Props.$C drv_$c >/dev/null 2>&1) || { echo "lake build failed for $C"; rc=1; }
 done
+# the C29 wire-level family starts the real server binary: warm its build (best effort)
+(RUSTC_WRAPPER= CARGO_TARGET_DIR="$PWD/harness/target-server" cargo build --manifest-path /repo/Cargo.toml -p vibesql-server --offline --quiet) || echo "server warm-up build failed (C29 builds it on demand)"
 echo "setup done rc=$rc"
 exit $rc
